@@ -364,17 +364,23 @@ class SimplicialComplex:
         # force the map to be a function
         f = self._createRelabelling(rename)
 
-        # perform the renaming
+        # work out the renaming and check it before changing anything
         mapping = dict()
         ss = list(self.simplices())   # grab so we can change the structure
         for s in ss:
             sprime = f(s)
             if s != sprime:
-                # relabel the simplex
-                self.relabelSimplex(s, sprime)
-
-                # record the change
                 mapping[s] = sprime
+        targets = list(mapping.values())
+        for q in targets:
+            if self.containsSimplex(q):
+                raise ValueError(f'Relabeling attempting to re-write to existing simplex {q}')
+        if len(set(targets)) != len(targets):
+            raise ValueError('Relabeling maps two simplices to the same name')
+
+        # perform the renaming
+        for s in mapping.keys():
+            self.relabelSimplex(s, mapping[s])
 
         # return the mapping of changed simplices
         return mapping
